@@ -48,7 +48,7 @@ import json,sys
 dst,prop,i,base_rc,build_rc,suite_fail,mut_rc,chk=sys.argv[1:9]
 meta={"property":prop,"origin":"independent sub-agent given only the property text and a scratch worktree",
  "confirmed":{"demo_passes_without_change":base_rc=="0","builds":build_rc=="0","existing_suite_failures":int(suite_fail),"demo_fails_with_change":mut_rc not in("0","99")},
- "check_result":chk,"caught":chk.startswith("VIOLATION"),
+ "check_result":chk,"caught":("\nVIOLATION" in "\n"+chk),
  "what_we_ran":"lib/seedeval.sh %s %s (scratch worktree of /repo HEAD; go build, go test -vet=off -count=1 ./..., demo with/without, VERIF_REPO=<worktree> ./check %s --tier quick)"%(prop,i,prop)}
 json.dump(meta,open(dst+"/meta.json","w"),indent=1)
 print(json.dumps(meta["confirmed"]), "caught=",meta["caught"])
